@@ -88,7 +88,22 @@ def run(tier):
         if len(scen) % 10 == 0:
             sc["conc"] = 8          # several goroutines evaluate the compiled predicates at once
         scen.append(sc)
+    # predicates that differ from an EARLIER one of the same process only in letter case / blanks inside a text literal or in the column's
+    # spelling: each text has its own decision (exact string comparison; a column the row lacks is NULL: equal to no text, different from every text), whatever was compiled before
+    nstr = 0
+    for a, b in [("ab", "AB"), ("Ab", "aB"), ("a b", "a  b"), ("on", "ON"), ("x y", "x\ty")]:
+        for op in ["==", "!="]:
+            for lit in (a, b):
+                for col, have in (("x", "x"), ("X", "x"), ("x", "X")):
+                    vals = [a, b, lit.lower(), lit + " "]
+                    rows = [{have: v} for v in vals]
+                    flat = "%s %s '%s'" % (col, op, lit)
+                    sv = [{"m": 0 if col == have else 1, "s": v} for v in vals]
+                    scen.append({"meta": {"fam": "fast", "style": "strpair", "strq": {"op": op, "lit": lit, "vals": sv}}, "flat": flat, "general": "(" + flat + ")", "rows": rows,
+                                 "sql": "SELECT * FROM stream WHERE %s %s '%s'" % (col, sqlop(op), lit), "alt": ["'%s' %s %s" % (lit, op, col)]})
+                    nstr += 1
     seqfam.run_scenarios(res, scen, "TraceFastPath", tag="fast", sub="cond")
+    res.cov["string_pair_predicates"] = nstr
     res.cov["exhaustive"] = True
     res.cov["distinct_nontrivial"] = len({s["flat"] + json.dumps(s["rows"], sort_keys=True) for s in scen})
     res.cov["rule"] = ("every single comparison of the decision-table model (6 operators x 6 literal kinds x 25 value kinds = %d points, enumerated by TLC, exhaustive) plus seeded flat chains of 2-3 comparisons "
